@@ -16,6 +16,7 @@ import Mathlib.Data.Matrix.Mul
 import TjdModel.Agg.Spec2
 import TjdLemmas.PinvLemmas
 import TjdLemmas.PinvComplete
+import TjdLemmas.ConfigTotal
 namespace Tjd.Props.C17b
 open Tjd Tjd.Agg Matrix
 
@@ -77,6 +78,12 @@ theorem pinvApply_total (G : Mat α) (m : Nat) (hG : SymmSquare G m) (d : Vec α
 theorem imtlgWeightsP_total (J : Mat α) (m n : Nat) (hJ : MatWF J m n) (d : Vec α) (hd : d.length = m) (guard : α) :
     ∃ w, imtlgWeightsP J d guard = some w := by
   exact imtlgWeightsP_complete J m n hJ d hd guard
+
+/-- … and so does the any-rank ConFIG model, for every matrix, every vector of row norms and every preference vector of the
+    right length (zero rows included: their unit row is zero) -/
+theorem configVecP_total (J : Mat α) (m n : Nat) (hJ : MatWF J m n) (d w : Vec α) (hd : d.length = m) (hw : w.length = m) :
+    ∃ x, configVecP J d w n = some x := by
+  exact configVecP_complete J m n hJ d w hd hw
 
 /-! ### IMTL-G at any rank -/
 
